@@ -691,6 +691,14 @@ def trace_checks(c, vdriver, envs, work, quick, V):
         evs = G.rand_events(rng)
         for eng in ('large', 'fast'):
             cases.append(CC.impl_line(eng, tree, dm, False, evs))
+    # corpus: a chart on which the large engine's entry-set computation depended on the addresses of its State objects
+    wpath = os.path.join(ROOT, 'corpus', 'c06_side_large_engine_nondeterministic.sx')
+    if os.path.exists(wpath):
+        sys.path.insert(0, os.path.join(ROOT, 'tools', 'props'))
+        import c06 as _c06
+        wt = _c06.tree_of_sx(open(wpath).read().strip())
+        for _ in range(4):
+            cases.append(CC.impl_line('large', wt, 'promela', False, [b'e']))
     per_env = {}
     for (en, prefix, extra) in envs:
         env = dict(os.environ)
@@ -707,6 +715,17 @@ def trace_checks(c, vdriver, envs, work, quick, V):
         evaluations += len(cases)
         for cr in crashes:
             failures.append('vdriver crashed in environment %s (rc=%s) at case %d' % (en, cr[1], cr[0]))
+    # the same documents again inside long-lived driver processes, in reverse order and twice in a row: the heap of a
+    # process that has already interpreted other documents hands out addresses in another order than a fresh one
+    # (a container or search ordered by pointer values shows here and in no fresh process)
+    order2 = list(reversed(range(len(cases))))
+    outs2, crashes2 = run_lines_sharded(vdriver, [cases[k] for k in order2 for _ in (0, 1)], shards=2)
+    per_env['reused-heap-1'] = [None] * len(cases)
+    per_env['reused-heap-2'] = [None] * len(cases)
+    for pos, k in enumerate(order2):
+        per_env['reused-heap-1'][k] = outs2[2 * pos]
+        per_env['reused-heap-2'][k] = outs2[2 * pos + 1]
+    evaluations += 2 * len(cases)
     base = envs[0][0]
     differing = [k for k in range(len(cases)) if len(set(per_env[en][k] for en in per_env)) > 1 and not any(per_env[en][k].startswith('CRASH') for en in per_env)]
     notes['traces_compared'] = len(cases)
